@@ -383,7 +383,9 @@ func init() {
 					{
 						s := w.stream(1, 1)
 						w.write(0, 1, 500, 51)
-						w.heal(1 * time.Second)
+						w.pump(10) // delivered, acknowledged, NOT read
+						w.sleep(250 * time.Millisecond)
+						w.pump(10)
 						at := w.now() + 50
 						s.SetReadDeadline(time.Now().Add(50 * time.Millisecond)) //nolint:errcheck
 						w.tr.emit(map[string]any{"ev": "api", "ep": 1, "op": "setreaddeadline", "sid": 1, "at": at, "t": w.now()})
